@@ -286,6 +286,10 @@ func (c *Conn) Read(b []byte) (int, error) {
 			time.Sleep(100 * time.Microsecond)
 		}
 	}
+	if !c.rdl.IsZero() && !vs.Now().Before(c.rdl) && !c.closed {
+		// a deadline that has passed fails the read even if bytes are waiting (as a socket's poller does)
+		return 0, ErrTimeout
+	}
 	ok := vs.Block(c.readable, c.rdl)
 	if c.closed {
 		return 0, net.ErrClosed
